@@ -1,2 +1,3 @@
 import Mimic.Control
+import Mimic.Framing
 import Mimic.Drv
